@@ -282,6 +282,17 @@ def bounded(tier, seed):
     R.I.interpret("def x = 12; def y = 3.14159; def s = 'it\\'s'", "-")
     for fmt, exp in fmts:
         R.expect("bounded:s()-interpolation", f"String->s({lit(fmt)})", lambda r: r == exp, repr(exp))
+    # systematic: every alignment x width x value; the rendered value is inserted intact, padded on the stated side to the
+    # stated width with the stated fill character, surrounding text unchanged
+    values = {"x": "12", "neg": "-5", "negd": "-2.5", "plus": "+ab", "minus": "-ab", "e": "", "long": "abcdefghij", "sp": "a b", "br": "{x}", "q": "it's"}
+    R.I.interpret("def neg = -5; def negd = -2.5; def plus = '+ab'; def minus = '-ab'; def e = ''; def long = 'abcdefghij'; def sp = 'a b'; def br = '{x}'; def q = 'it\\'s'", "-")
+    for name, text in values.items():
+        for width in (0, 1, 3, 6, 12):
+            for align, fill, left in (("", " ", True), ("-", " ", False), ("0", "0", True)):
+                spec = f"{{{name}#{align}{width}}}"
+                pad = fill * max(0, width - len(text))
+                exp2 = "<" + (pad + text if left else text + pad) + ">"
+                R.expect("bounded:s()-pads-the-intact-value-to-the-width", f"String->s({lit('<' + spec + '>')})", lambda r, exp2=exp2: r == exp2, repr(exp2))
     for args, fmt, exp in [((1, 2), "{0} {1}", "1 2"), (("a", "b"), "{0}-{1}", "a-b"), ((1, 2), "{0#5}|{1#-5}|", "    1|2    |"),
                            ((7,), "{0#03}", "007"), ((1, 2), "x{1}y{0}z", "x2y1z")]:
         R.expect("bounded:sprintf", f"sprintf({lit(fmt)}, {', '.join(lit(a) for a in args)})", lambda r: r == exp, repr(exp))
